@@ -17,7 +17,11 @@ EXPLANATION = (
     "'model_key', abscissa and ordinate are cut by the same mask, 'method', "
     "'method_kws' and 'weight_cp' reach the optimiser; (R4) the shipped "
     "model functions evaluate their documented formulas (shared with C02), "
-    "since a fit can only recover parameters of the function it evaluates.")
+    "since a fit can only recover parameters of the function it evaluates; "
+    "(R5-R8, shared with C05/C03) the relative-cp passes, the range mask "
+    "on the requested segment, invalidation of stale results and the "
+    "delivery of every request keyword - recovery is judged on the fitted "
+    "points of the current request.")
 NOT_DECIDED = [
     "that the optimisation converges / reports success and the size of the "
     "parameter error with or without noise",
@@ -37,6 +41,11 @@ def r6_new_guess_refits(ctx):
         "the result of the first one)")
 
 
+def r8_request_reaches_fit(ctx):
+    from .c03 import r4_fit_iff_no_hash
+    r4_fit_iff_no_hash(ctx)
+
+
 RULES = [
     ("C01-R1", "a supplied initial guess reaches the optimiser",
      fitclauses.clause_guess_delivery),
@@ -49,4 +58,12 @@ RULES = [
      "estimate of the contact point", fitclauses.clause_relative_cp),
     ("C01-R6", "an edited initial guess or setting leads to a new fit "
      "(stale results are dropped)", r6_new_guess_refits),
+    ("C01-R9", "a request is copied into the settings in an order in which "
+     "no stored value is overwritten by a dependent reset",
+     fitclauses.clause_store_order),
+    ("C01-R7", "the points fitted are those of the requested interval on "
+     "the requested segment", fitclauses.clause_absolute_mask),
+    ("C01-R8", "every keyword of a fit request is stored as given and the "
+     "optimisation runs whenever no current result exists",
+     r8_request_reaches_fit),
 ]
